@@ -340,7 +340,7 @@ func c11Check(cc *c11Case, st *vfkit.Stats, mode *c11Mode) (v *vfkit.Violation, 
 			}
 			for _, inv := range invs {
 				if v = inv(e, r); v != nil {
-					if vfkit.IsKnown(v) && strings.HasSuffix(v.Signature, "after-failed-request") {
+					if vfkit.IsKnown(v) && strings.Contains(v.Signature, "after-failed-request") {
 						if st != nil {
 							st.KnownHit(v)
 						}
